@@ -90,13 +90,23 @@ def r_c20(tmp, inp):
     try:
         if r._range and r._range[0] is not None:
             r._range[0][0] = -12345.0
+        # every mutable metadata container of the result, not only the ranges (seeded change C20-4: a view of a sample that owns its
+        # buffer shared the TEXT / ANALYSIS dictionaries with it)
+        for a in ATTRS:
+            v = getattr(r, a, None)
+            if isinstance(v, dict):
+                v['$VERIF-INDEPENDENCE'] = 'changed'
+                for k in list(v)[:1]:
+                    v[k] = 'changed'
+            elif isinstance(v, list) and v:
+                v[0] = 'changed'
         if r.size and op != 'view()':
             r.flat[0] = -54321.0
     except Exception:
         pass
     now = _snap(s)
     if any(not _same(now['meta'][a], before['meta'][a]) for a in ATTRS):
-        return True, '[shared-metadata] after %s, changing the result\'s range changes the original' % op
+        return True, '[shared-metadata] after %s, changing the result\'s metadata containers (range, TEXT, ANALYSIS, lists) changes the original: %s' % (op, [a for a in ATTRS if not _same(now['meta'][a], before['meta'][a])])
     if op != 'view()' and not _same(now['values'], before['values']):
         return True, '[shared-events] after %s, writing into the result changes the original' % op
     return False, 'agrees'
